@@ -2,6 +2,7 @@
 from vf.gen import Plan, Module, Ob
 from props.fam_model import MEMBERS, member_module, LOAD_PARAMS, LOAD_ARGS, load_slices
 from props.fam_l1 import l1_loader_module
+from props.fam_l3 import l3_module
 from props.fam_l2 import l2_module
 
 KEXC_SETUP = '''
@@ -58,6 +59,7 @@ def kexc_module():
 
 def build(tier, seed):
     mods = [l1_loader_module("C04", tier), l2_module("C04", tier), kexc_module()]
+    mods.append(l3_module("C04", tier))
 
     model_names = ['plain', 'rename', 'nested', 'nested2', 'forbid_nested', 'kwargs', 'rest_field_rename', 'saturator', 'as_list_forbid', 'list_gaps', 'list_in_dict', 'dict_in_list', 'pairs_map', 'req_two_crowns', 'req_three_levels'] if tier == "quick" else list(MEMBERS)
     for name in model_names:
